@@ -49,6 +49,19 @@ def cases(tier, seed):
                         regimes=(None if thermal else ["temperate", "cold", "warm", "humid", "arid", "monsoon"]))
         if sp.get("gw") and sp["gw"]["method"] == "Variable":
             sp["gw"]["method"] = "Constant"
+        if i % 9 == 4 and not thermal:
+            # dated inputs that precede the window (a multi-year schedule re-used for a later start)
+            # and a window that ends inside a season: anything booked relative to the end would show
+            import datetime as dt
+
+            sp2 = gen.config(rng, crops=cd, seasons=(1, 2), p_gw=0.0, p_custom=0.1, p_file=0.0, end_shape="mid",
+                             methods=(3,), year_range=(1985, 2032), pre=(0, 5))
+            s0, e0 = S.d(sp2["start"]), S.d(sp2["end"])
+            offs = sorted(set([-int(x) for x in rng.integers(1, 70, 6)] + [int(x) for x in rng.integers(0, (e0 - s0).days, 10)]))
+            sp2["irr"]["schedule"] = [[gen.fmt(s0 + dt.timedelta(days=o)), float(gen.pick(rng, [10.0, 25.0, 40.0]))] for o in offs]
+            sp2["irr"]["kw"].pop("MaxIrrSeason", None)
+            sp2["irr"]["kw"].pop("MaxIrr", None)
+            sp = sp2
         out.append({"spec": sp, "seed": int(rng.integers(0, 2 ** 31 - 1))})
     return out
 
